@@ -24,6 +24,7 @@ type bufVec struct {
 	Prefix   *int       `json:"prefix"`
 	Spares   []string   `json:"spares"`
 	FlagSets [][]string `json:"flagsets"`
+	Rel      []string   `json:"rel"`
 }
 
 type c15Case struct {
@@ -41,6 +42,26 @@ type c15Case struct {
 // default and every announced configuration is checked to be in it
 var c15Prefixes = []int{0, 1, 7, 8, 9, 31}
 var c15Spares = []string{"none", "n-1", "n", "n+1", "big"}
+
+// prefix lengths relative to the size n of the text (JsonAppendBuf.RelPrefixes): a reservation counted from the wrong
+// end only shows when the prefix is longer than the text and its slack
+var c15Rel = []string{"n/4", "n", "n+n/4", "n+n/4+2", "n+n/2", "2n"}
+
+func relPrefix(class string, n int) int {
+	switch class {
+	case "n/4":
+		return n / 4
+	case "n":
+		return n
+	case "n+n/4":
+		return n + n/4
+	case "n+n/4+2":
+		return n + n/4 + 2
+	case "n+n/2":
+		return n + n/2
+	}
+	return 2 * n
+}
 
 const c15Guard = 32
 
@@ -233,7 +254,11 @@ func c15Long(c *Ctx, kind string, n int, seed int64) {
 	for _, mask := range []int{0, 7} {
 		fl, _ := subsetFlags(mask)
 		ref, refErr := json.Append(nil, x, fl)
-		for _, p := range []int{0, 1, 64, 255, 256, 257, n, n + n/4, n + n/4 + 2, n + n/2, 2 * n, 2000, 4096, 5000} {
+		prefixes := []int{0, 1, 64, 255, 256, 257, 2000, 4096, 5000}
+		for _, rc := range c15Rel {
+			prefixes = append(prefixes, relPrefix(rc, n))
+		}
+		for _, p := range prefixes {
 			for _, sp := range c15Spares {
 				k := c15Case{Seed: seed, Prefix: p, Spare: sp, Flags: mask, Str: strconv.Itoa(n), API: "long:" + kind}
 				c.Case()
@@ -291,7 +316,14 @@ func c15Vector(c *Ctx, raw stdjson.RawMessage) {
 		for _, p := range c15Prefixes {
 			ok = ok || p == *bv.Prefix
 		}
-		if !ok || len(bv.Spares) != len(c15Spares) || len(bv.FlagSets) != 8 {
+		rel := map[string]bool{}
+		for _, rc := range bv.Rel {
+			rel[rc] = true
+		}
+		for _, rc := range c15Rel {
+			ok = ok && rel[rc]
+		}
+		if !ok || len(bv.Spares) != len(c15Spares) || len(bv.FlagSets) != 8 || len(bv.Rel) != len(c15Rel) {
 			c.SpecError("C15", "configuration lattice of JsonAppendBuf.tla differs from the harness's", bv)
 		}
 		c.Nontrivial()
